@@ -29,12 +29,16 @@ import (
 	"go.opentelemetry.io/collector/consumer/consumererror"
 	"go.opentelemetry.io/collector/exporter"
 	"go.opentelemetry.io/collector/exporter/otlpexporter"
+	"go.opentelemetry.io/collector/consumer/xconsumer"
 	"go.opentelemetry.io/collector/exporter/otlphttpexporter"
+	"go.opentelemetry.io/collector/exporter/xexporter"
 	"go.opentelemetry.io/collector/pdata/plog"
 	"go.opentelemetry.io/collector/pdata/pmetric"
+	"go.opentelemetry.io/collector/pdata/pprofile"
 	"go.opentelemetry.io/collector/pdata/ptrace"
 	"go.opentelemetry.io/collector/receiver"
 	"go.opentelemetry.io/collector/receiver/otlpreceiver"
+	"go.opentelemetry.io/collector/receiver/xreceiver"
 	"verif.local/simkit"
 	"verif.local/simkit/gen"
 )
@@ -115,7 +119,7 @@ var allCodes = []codes.Code{codes.Canceled, codes.Unknown, codes.InvalidArgument
 
 func runC15(r *simkit.Run) {
 	tp := r.Tape
-	cfg := c15Cfg{Signal: signals[tp.Draw(3)], RetryMs: -1}
+	cfg := c15Cfg{Signal: drawSignal(tp), RetryMs: -1}
 	if tp.Chance(1, 4) {
 		cfg.Mode = "raw"
 	} else {
@@ -163,6 +167,7 @@ func runC15(r *simkit.Run) {
 	}
 	r.Sample = cfg
 	r.Logf("case %+v", cfg)
+	r.Count("probe.signal/" + cfg.Signal)
 
 	// ---- receiver
 	authID := component.MustNewIDWithName("simauth", "a")
@@ -200,6 +205,9 @@ func runC15(r *simkit.Run) {
 	case sigTraces:
 		next, _ := consumer.NewTraces(func(_ context.Context, td ptrace.Traces) error { return sink(td) })
 		rcv, err = rf.CreateTraces(context.Background(), rset, rcfg, next)
+	case sigProfiles:
+		next, _ := xconsumer.NewProfiles(func(_ context.Context, pf pprofile.Profiles) error { return sink(pf) })
+		rcv, err = rf.(xreceiver.Factory).CreateProfiles(context.Background(), rset, rcfg, next)
 	default:
 		next, _ := consumer.NewMetrics(func(_ context.Context, md pmetric.Metrics) error { return sink(md) })
 		rcv, err = rf.CreateMetrics(context.Background(), rset, rcfg, next)
@@ -233,6 +241,8 @@ func runC15(r *simkit.Run) {
 			payload = plog.NewLogs()
 		case sigTraces:
 			payload = ptrace.NewTraces()
+		case sigProfiles:
+			payload = pprofile.NewProfiles()
 		default:
 			payload = pmetric.NewMetrics()
 		}
@@ -259,8 +269,11 @@ func runC15(r *simkit.Run) {
 	}
 	var exp component.Component
 	var send func(ctx context.Context) error
+	var pe xexporter.Profiles
 	mk := func(l exporter.Logs, t exporter.Traces, m exporter.Metrics) {
 		switch cfg.Signal {
+		case sigProfiles:
+			exp, send = pe, func(ctx context.Context) error { return pe.ConsumeProfiles(ctx, payload.(pprofile.Profiles)) }
 		case sigLogs:
 			exp, send = l, func(ctx context.Context) error { return l.ConsumeLogs(ctx, payload.(plog.Logs)) }
 		case sigTraces:
@@ -287,6 +300,8 @@ func runC15(r *simkit.Run) {
 			l, err = ef.CreateLogs(context.Background(), eset, ecfg)
 		case sigTraces:
 			t, err = ef.CreateTraces(context.Background(), eset, ecfg)
+		case sigProfiles:
+			pe, err = ef.(xexporter.Factory).CreateProfiles(context.Background(), eset, ecfg)
 		default:
 			m, err = ef.CreateMetrics(context.Background(), eset, ecfg)
 		}
@@ -312,6 +327,8 @@ func runC15(r *simkit.Run) {
 			l, err = ef.CreateLogs(context.Background(), eset, ecfg)
 		case sigTraces:
 			t, err = ef.CreateTraces(context.Background(), eset, ecfg)
+		case sigProfiles:
+			pe, err = ef.(xexporter.Factory).CreateProfiles(context.Background(), eset, ecfg)
 		default:
 			m, err = ef.CreateMetrics(context.Background(), eset, ecfg)
 		}
@@ -482,7 +499,7 @@ func sanitize(err error, ports ...int) string {
 }
 
 func runC15Raw(r *simkit.Run, cfg c15Cfg, ph int, sent []byte, mu *sync.Mutex, sinkCalls *int) {
-	path := map[string]string{sigLogs: "/v1/logs", sigTraces: "/v1/traces", sigMetrics: "/v1/metrics"}[cfg.Signal]
+	path := map[string]string{sigLogs: "/v1/logs", sigTraces: "/v1/traces", sigMetrics: "/v1/metrics", sigProfiles: "/v1development/profiles"}[cfg.Signal]
 	url := fmt.Sprintf("http://127.0.0.1:%d%s", ph, path)
 	method, ctype, body := http.MethodPost, "application/x-protobuf", sent
 	var hdr = map[string]string{}
@@ -494,7 +511,7 @@ func runC15Raw(r *simkit.Run, cfg c15Cfg, ph int, sent []byte, mu *sync.Mutex, s
 	case "bad-body":
 		body = []byte{0xff, 0xff, 0xff, 0x01, 0x02, 0x03, 0x04}
 		if cfg.Transport == "http-json" {
-			ctype, body = "application/json", []byte(`{"resourceLogs": [`)
+			ctype, body = "application/json", []byte(`{"resource`)
 		}
 		want = 400
 	case "wrong-content-type":
